@@ -14,8 +14,10 @@
     attr_value_roundtrip uri_attrs_scheme_serialised default_config_script_free
     html_reparse_safe_partial xhtml_reparse_safe_partial default_config_markup_ok css_pass_order_matters
     attr_values_decode_stable html_reparse_events_safe_partial redecode_witness
-    css_ok css_no_negative_margin password_inputs_dropped no_password_input password_rule_reference_witness
-    html_reparse_prolog_safe_partial
+    css_ok css_no_negative_margin password_inputs_dropped no_password_input no_password_input_after_decoding password_rule_reference_witness
+    html_reparse_prolog_safe_partial xhtml_reparse_prolog_safe_partial xhtml_doctype_quote_witness
+    decode_loop_fuel_independent comment_loop_fuel_independent loops_end_stable
+    css_helpers_total strip_css_comments_complete unsafe_css_property_dropped default_css_no_scripting_properties
 -/
 import Genshi.Lemmas.SanNest
 import Genshi.Lemmas.SanTree
@@ -27,6 +29,8 @@ import Genshi.Lemmas.SanReparse
 import Genshi.Lemmas.SanLayer
 import Genshi.Lemmas.SanRules
 import Genshi.Lemmas.SanReparseProlog
+import Genshi.Lemmas.SanReparsePrologX
+import Genshi.Lemmas.SanFuel
 import Genshi.Props.C08
 namespace Genshi.Props.C06
 open Genshi Genshi.San Genshi.San.Spec
@@ -448,19 +452,20 @@ example : sanitize styleCfg [.start divTag [(styleName,
 /-! ## The password rule of `is_safe_elem`
 
   "Password fields can be used for phishing": an `input` element (by `QName.localname`) whose
-  `type` attribute, lower-cased, is `password` is treated like an element outside the safe set.
-  The code looks at the `type` value of the INPUT event, before the attribute loop decodes
-  character references in it; so the statement about the output alone needs the hypothesis that
-  the `type` values of the input hold no reference (true of what html.parser + genshi's HTML
-  parser deliver except for triple-encoded references, see `password_rule_reference_witness`). -/
+  `type` attribute is `password` in any letter case is treated like an element outside the safe
+  set.  Until wave 4 the code compared the UNDECODED `type` value of the input event, while the
+  attribute loop emits the decoded one: `<input type="pass&amp;amp;#119;ord">` passed the rule and
+  was written as `<input type="password">` (finding C06-password-reference, repaired: the rule now
+  decodes the value until no reference is left, as the attribute loop does).  The statement
+  about the output alone therefore no longer needs a hypothesis on the input values. -/
 
 /-- Every emitted START event stems from an input START event of the same tag whose attributes
-    were filtered and which was no password field: `localname = input ∧ lower(type) = password`
-    is false of the input element — for all streams. -/
+    were filtered and which was no password field: `localname = input ∧ lower(decoded type) =
+    password` is false of the input element — for all streams. -/
 theorem password_inputs_dropped {cfg : Cfg} {s o : Stream} (h : sanitize cfg s = .ok o)
     {tag : QName} {attrs : AttrList} (hm : Event.start tag attrs ∈ o) :
     ∃ attrs0, Event.start tag attrs0 ∈ s ∧ sanAttrs cfg attrs0 = .ok attrs ∧
-      ¬ (localname tag = inputWord ∧ pyLower (attrGet attrs0 typeWord) = passwordWord) := by
+      ¬ (localname tag = inputWord ∧ pyLower (stripRefsD (attrGet attrs0 typeWord)) = passwordWord) := by
   obtain ⟨st1, e, hes, hem⟩ := sanitizeFrom_mem h _ hm
   cases hem with
   | start tag' attrs0 as he hw hsafe has =>
@@ -471,11 +476,12 @@ theorem password_inputs_dropped {cfg : Cfg} {s o : Stream} (h : sanitize cfg s =
     simp [hl, ht] at hsafe
   | other hw hns hnc => exact absurd rfl (hns tag attrs)
 
-/-- **The output never contains a password field**: no emitted `input` element has a `type`
-    attribute that is `password` in any letter case — when the `type` values of the input stream
-    hold no character reference and `type` is not configured as a URI attribute. -/
+/-- **The output never contains a password field** — for ALL streams (wave 4: no hypothesis on the
+    input values any more): no emitted `input` element (by local name) has a `type` attribute
+    that is `password` in any letter case.  The one hypothesis left is on the configuration:
+    `type` is not configured as a URI attribute (then the first `type` attribute could be dropped
+    by the scheme test and a second one take its place). -/
 theorem no_password_input {cfg : Cfg} (hu : typeWord ∉ cfg.uriAttrs) {s o : Stream}
-    (hplain : ∀ t as, Event.start t as ∈ s → ∀ a ∈ as, a.1.text = typeWord → stripentities a.2 = .ok a.2)
     (h : sanitize cfg s = .ok o) {tag : QName} {attrs : AttrList} (hm : Event.start tag attrs ∈ o)
     (hl : localname tag = inputWord) : pyLower (attrGet attrs typeWord) ≠ passwordWord := by
   obtain ⟨attrs0, hin, has, hno⟩ := password_inputs_dropped h hm
@@ -483,20 +489,44 @@ theorem no_password_input {cfg : Cfg} (hu : typeWord ∉ cfg.uriAttrs) {s o : St
     cases hc : cfg.uriAttrs.contains typeWord with
     | false => rfl
     | true => exact absurd (by simpa using hc) hu
-  rw [sanAttrs_attrGet_type hu' attrs0 attrs (hplain tag attrs0 hin) has]
-  by_cases hs : cfg.safeAttrs.contains typeWord = true
-  · rw [if_pos hs]; exact fun ht => hno ⟨hl, ht⟩
-  · rw [if_neg hs]; exact pyLower_nil_ne_password
+  rcases sanAttrs_attrGet_type hu' attrs0 attrs has with ⟨_, h0⟩ | ⟨_, h1⟩
+  · rw [h0]; exact pyLower_nil_ne_password
+  · rw [h1]
+    by_cases hs : cfg.safeAttrs.contains typeWord = true
+    · rw [if_pos hs]; exact fun ht => hno ⟨hl, ht⟩
+    · rw [if_neg hs]; exact pyLower_nil_ne_password
+
+/-- what `no_password_input` says carries over to the value as emitted: it is a fixed point of
+    reference decoding (`attr_values_decode_stable`), so no reader that decodes once more turns
+    it into `password` either -/
+theorem no_password_input_after_decoding {cfg : Cfg} (hu : typeWord ∉ cfg.uriAttrs) {s o : Stream}
+    (h : sanitize cfg s = .ok o) {tag : QName} {attrs : AttrList} (hm : Event.start tag attrs ∈ o)
+    (hl : localname tag = inputWord) : pyLower (stripRefsD (attrGet attrs typeWord)) ≠ passwordWord := by
+  have hst : stripentities (attrGet attrs typeWord) = .ok (attrGet attrs typeWord) := by
+    unfold attrGet
+    cases hf : attrs.find? (fun a => a.1.text == typeWord) with
+    | none => decide
+    | some a =>
+      obtain ⟨st1, e, _, hem⟩ := sanitizeFrom_mem h _ hm
+      cases hem with
+      | start tag' attrs0 as he hw hsafe has =>
+        obtain ⟨a0, _, hsa⟩ := sanAttrs_mem has a (List.mem_of_find?_eq_some hf)
+        exact (sanAttr_some hsa).stable
+      | other hw hns hnc => exact absurd rfl (hns tag attrs)
+  rw [stripRefsD_eq (stripRefs_of_stable hst)]
+  exact no_password_input hu h hm hl
 
 def inputTag : QName := ⟨[], inputWord⟩
 def typeName : QName := ⟨[], typeWord⟩
 
-/-- The hypothesis of `no_password_input` is needed (observation, outside the property text): the
-    rule reads the undecoded value, the attribute loop then decodes it — `type="pass&#119;ord"`
-    in the event stream is emitted as `type="password"`. -/
+/-- Regression of the repaired finding C06-password-reference: `type="pass&#119;ord"` and
+    `type="pass&amp;#119;ord"` in the event stream (what the HTML parser delivers for
+    `pass&amp;amp;#119;ord` resp. one more layer) are password fields now: dropped with their content. -/
 theorem password_rule_reference_witness :
     sanitize Cfg.default [.start inputTag [(typeName, ['p', 'a', 's', 's', '&', '#', '1', '1', '9', ';', 'o', 'r', 'd'])],
-      .end_ inputTag] = .ok [.start inputTag [(typeName, passwordWord)], .end_ inputTag] := by
+      .text ['x'] false, .end_ inputTag,
+      .start inputTag [(typeName, ['P', 'a', 's', 's', '&', 'a', 'm', 'p', ';', '#', '1', '1', '9', ';', 'o', 'r', 'd'])],
+      .end_ inputTag, .text ['y'] false] = .ok [.text ['y'] false] := by
   decide +kernel
 
 -- non-vacuity: a password field (mixed case) is dropped with its content, also under a name in
@@ -707,17 +737,21 @@ example : (do
 
   C08's tree round trips know no PI / DOCTYPE leaves; its events-level theorem
   `html_roundtrip_prolog_partial` does, under two hypotheses: no `>` inside a PI (`piSafe`) and a
-  DOCTYPE literal that the html-mode reader reads back whole (`HtmlOkP` for DOCTYPE events).  The
-  first is **established by the repaired filter** (a PI holding `>` is dropped: C06-pi-markup);
-  the second is asked of the DOCTYPE leaves that the filter keeps (`DtOkForest`, stated through
-  C08's own predicate; the filter guarantees that no kept DOCTYPE holds a `>`, which is what
-  html.parser needs — C06-doctype-markup).  `TokSafeP` is `TokSafe` except that PI and DOCTYPE
-  tokens may occur (the property forbids comments, not these).  `_partial`: HTML method only,
-  `strip_whitespace=False`, no doctype option, no XML declaration / namespace leaves. -/
+  DOCTYPE literal that passes `dtScan false` (no `>` and every quote closed).  The first is
+  **established by the repaired filter** (a PI holding `>` is dropped: C06-pi-markup).  The
+  second is stricter than what an HTML parser needs: html.parser, the HTML5 tokenizer and C08's
+  html-mode reader end a DOCTYPE at the first `>`, quoted or not, so a literal without `>` is read
+  back whole whatever its quotes.  `Lemmas/SanReaderDoctype.lean` re-proves the events-level round
+  trip under that weaker hypothesis (`html_roundtrip_prolog_nogt`), and "no `>`" is **established by
+  the repaired filter** too (C06-doctype-markup, `no_gt_in_declarations`).  Since wave 4 the theorem
+  therefore has NO hypothesis on the PI / DOCTYPE leaves of the input (`DtOkForest` is gone).
+  `TokSafeP` is `TokSafe` except that PI and DOCTYPE tokens may occur (the property forbids
+  comments, not these).  XML declaration leaves are inside too (the HTML serializer writes none).
+  `_partial` (what is still outside): HTML method only (XHTML: `xhtml_reparse_prolog_safe_partial`),
+  `strip_whitespace=False`, no doctype option, no namespace leaves, text leaves not Markup. -/
 
 theorem html_reparse_prolog_safe_partial {cfg : Cfg} (hm : CfgMarkupOk cfg) (hcss : CssNamesPlain cfg)
-    (cache dropd : Bool) (ns : List Node) (hok : okList ns = true) (hpl : prologForest ns = true)
-    (hdt : DtOkForest ns) :
+    (cache dropd : Bool) (ns : List Node) (hok : okList ns = true) (hpl : prologForest ns = true) :
     ∃ p toks, sanitize cfg (flattenList ns) = .ok (flattenList p) ∧
       (Genshi.Output.render .html { strip := false, cache := cache, doctype := none, dropXmlDecl := dropd }
           (flattenList p)).bind (Genshi.Reader.tokens false) = some toks ∧
@@ -728,7 +762,7 @@ theorem html_reparse_prolog_safe_partial {cfg : Cfg} (hm : CfgMarkupOk cfg) (hcs
     cases hp : pruneList cfg ns with
     | ok p => exact ⟨p, rfl⟩
     | error e => rw [h1, hp] at ho; cases ho
-  have hgood := pruneList_goodP cfg ns p hpl hdt hp
+  have hgood := pruneList_goodP cfg ns p hpl hp
   obtain ⟨⟨h1, h2⟩, h3⟩ := forestF_good hm p hgood
   obtain ⟨hokP, hraw⟩ := okAllP_of_good hm (Genshi.Output.forestF p) h3 false
   refine ⟨p, Genshi.Reader.htmlExpectedP (Genshi.Output.forestF p), ?_, ?_,
@@ -746,22 +780,26 @@ theorem html_reparse_prolog_safe_partial {cfg : Cfg} (hm : CfgMarkupOk cfg) (hcs
     rw [hc]
     have hf := Genshi.Output.filtered_forest .html false dropd p h1 h2
     simp only [Genshi.Output.render, Genshi.Output.chunks, hf, Option.map_some, Option.bind_some]
-    refine Genshi.Props.C08.html_roundtrip_prolog_partial _ _ _ hokP ?_
-    have := (Genshi.Reader.html_streamP ({} : Genshi.Output.Opts) (Genshi.Output.forestF p) {} false {} rfl rfl hokP).2
+    refine Genshi.Reader.html_roundtrip_prolog_nogt _ _ _ hokP ?_
+    have := (Genshi.Reader.html_streamG ({} : Genshi.Output.Opts) (Genshi.Output.forestF p) {} false {} rfl rfl hokP).2
     rw [this]; exact hraw
 
--- non-vacuity: a DOCTYPE, a kept PI, a DOCTYPE holding `>` (dropped) and a PI holding `>` (dropped)
-example : prologForest [.leaf (.doctype ['h', 't', 'm', 'l'] none (some ['x', '.', 'd', 't', 'd'])),
+-- non-vacuity: a DOCTYPE whose quotes are NOT balanced (name `a"b`: outside C08's `dtScan false`, inside
+-- this theorem), a kept PI, a DOCTYPE holding `>` (dropped) and a PI holding `>` (dropped)
+example : prologForest [.leaf (.doctype ['a', '"', 'b'] none (some ['x', '.', 'd', 't', 'd'])),
     .elem divTag [] [.leaf (.pi ['p', 'h', 'p'] ['e', 'c', 'h', 'o']), .leaf (.text ['a', '<'] false),
       .leaf (.pi ['x'] ['a', '>', '<', 's'])],
-    .leaf (.doctype ['h', 't', 'm', 'l'] none (some ['x', '\'', '>', '<', 's', '>']))] = true ∧
-  DtOkForest [.leaf (.doctype ['h', 't', 'm', 'l'] none (some ['x', '.', 'd', 't', 'd'])),
-    .elem divTag [] [.leaf (.pi ['p', 'h', 'p'] ['e', 'c', 'h', 'o'])],
-    .leaf (.doctype ['h', 't', 'm', 'l'] none (some ['x', '\'', '>', '<', 's', '>']))] := by
-  refine ⟨by decide, ?_, ?_, ?_, trivial⟩
-  · intro _ hd; exact ⟨rfl, fun _ => by decide⟩
-  · simp [DtOkTree, DtOkForest]
-  · intro h; exact absurd h (by decide)
+    .leaf (.doctype ['h', 't', 'm', 'l'] none (some ['x', '\'', '>', '<', 's', '>']))] = true := by decide
+example : Genshi.Reader.dtScan false none (Genshi.Reader.doctypeContent ['a', '"', 'b'] none none) = false := by decide
+example : prologForest [.leaf (.xmlDecl ['1', '.', '0'] none (-1)), .leaf (.doctype ['a', '"', 'b'] none none),
+    .elem divTag [] [.leaf (.text ['"', 'x'] false)]] = true := by decide
+example : (do
+    let o ← (sanitize Cfg.default [.xmlDecl ['1', '.', '0'] none (-1), .doctype ['a', '"', 'b'] none none, .start divTag [],
+      .text ['"', 'x'] false, .end_ divTag]).toOption
+    let txt ← Genshi.Output.render .html { strip := false, cache := true, doctype := none, dropXmlDecl := true } o
+    Genshi.Reader.tokens false txt) =
+    some [.doctype ['a', '"', 'b'], .text ['\n'], .start ['d', 'i', 'v'] [] false, .text ['"', 'x'], .end_ ['d', 'i', 'v']] := by
+  decide +kernel
 example : (do
     let o ← (sanitize Cfg.default [.doctype ['h', 't', 'm', 'l'] none (some ['x', '.', 'd', 't', 'd']), .start divTag [],
       .pi ['p', 'h', 'p'] ['e', 'c', 'h', 'o'], .text ['a', '<'] false, .pi ['x'] ['a', '>', '<', 's'], .end_ divTag,
@@ -771,6 +809,195 @@ example : (do
     some [.doctype ['h', 't', 'm', 'l', ' ', 'S', 'Y', 'S', 'T', 'E', 'M', ' ', '"', 'x', '.', 'd', 't', 'd', '"'], .text ['\n'],
       .start ['d', 'i', 'v'] [] false, .pi ['p', 'h', 'p', ' ', 'e', 'c', 'h', 'o', '?'], .text ['a', '<'], .end_ ['d', 'i', 'v']] := by
   decide +kernel
+
+/-! ### the same for the XHTML method (wave 4)
+
+  Composition of `dropped_subtree_absent` with C08's events-level `xhtml_roundtrip_prolog_partial`
+  (`XhtmlOkAllP` / `foldXP`, a reader with a CDATA state).  Established by the filter: no CDATA
+  marker reaches the serializer (the XML reader never enters a section), a kept PI holds no `>`
+  and so no `?>`.  Asked of the *sanitized* forest `p` (the filter does not establish them; both
+  are hypotheses of C08's XML round trip): no LF / TAB / CR in emitted attribute values
+  (`forestAttrVals`, finding C08-attr-ws) and well-quoted emitted DOCTYPE literals
+  (`forestDtQuoted` = C08's `dtScan true`: an XML tokenizer is quote-aware inside a DOCTYPE; a
+  name like `a"b`, which no XML parser yields, would make it read on to the next quote —
+  `xhtml_doctype_quote_witness` below); with them goes the analogous condition on XML declaration
+  leaves (no `?>` in the literal `xml version="…" …`, only relevant with `drop_xml_decl=False`).  Any
+  `drop_xml_decl`.  `_partial`: `strip_whitespace=False`, no doctype option, no namespace leaves,
+  text leaves not Markup, tokenizer level (before namespace resolution). -/
+
+theorem xhtml_reparse_prolog_safe_partial {cfg : Cfg} (hm : CfgMarkupOk cfg) (hcss : CssNamesPlain cfg)
+    (cache dropd : Bool) (ns : List Node) (hok : okList ns = true) (hpl : prologForest ns = true) :
+    ∃ p, sanitize cfg (flattenList ns) = .ok (flattenList p) ∧
+      (forestAttrVals p = true → forestDtQuoted p = true →
+        ∃ toks, (Genshi.Output.render .xhtml { strip := false, cache := cache, doctype := none, dropXmlDecl := dropd }
+            (flattenList p)).bind (Genshi.Reader.tokens true) = some toks ∧
+          ∀ t ∈ toks, TokSafeP cfg t) := by
+  obtain ⟨p, hp⟩ : ∃ p, pruneList cfg ns = .ok p := by
+    have h1 := keep_list cfg ns [] hok
+    obtain ⟨o, ho⟩ := sanitizeFrom_ok cfg St.init (flattenList ns ++ [])
+    cases hp : pruneList cfg ns with
+    | ok p => exact ⟨p, rfl⟩
+    | error e => rw [h1, hp] at ho; cases ho
+  have hgood := pruneList_goodP cfg ns p hpl hp
+  obtain ⟨⟨h1, h2⟩, h3⟩ := forestF_good hm p hgood
+  refine ⟨p, ?_, fun hv hq => ?_⟩
+  · have := keep_list cfg ns [] hok
+    simp only [List.append_nil] at this
+    unfold sanitize
+    rw [this, hp]
+    simp [sanitizeFrom]
+  · have hx := forestF_extra p hv hq
+    have hall : ∀ ev ∈ Genshi.Output.forestF p, FEvGood cfg ev ∧ XExtra ev := fun ev hev => ⟨h3 ev hev, hx ev hev⟩
+    refine ⟨Genshi.Reader.xhtmlExpectedP ⟨dropd⟩ (Genshi.Output.forestF p), ?_,
+      xhtmlExpectedP_safe css_comments_dotall hm hcss ⟨dropd⟩ _ hall⟩
+    have hc : Genshi.Output.render .xhtml { strip := false, cache := cache, doctype := none, dropXmlDecl := dropd } (flattenList p) =
+        Genshi.Output.render .xhtml { strip := false, cache := false, doctype := none, dropXmlDecl := dropd } (flattenList p) := by
+      cases cache
+      · rfl
+      · exact Genshi.Props.C08.render_cache_irrelevant' .xhtml false none dropd (flattenList p)
+    rw [hc]
+    have hf := Genshi.Output.filtered_forest .xhtml false dropd p h1 h2
+    simp only [Genshi.Output.render, Genshi.Output.chunks, hf, Option.map_some, Option.bind_some]
+    exact Genshi.Props.C08.xhtml_roundtrip_prolog_partial _ _ _ (okAllXP_of_good hm ⟨dropd⟩ _ hall {})
+      (foldXP_cd_none hm ⟨dropd⟩ _ hall {} {} rfl)
+
+-- non-vacuity: a DOCTYPE, a kept PI, a PI holding `>` (dropped), a CDATA section (markers dropped), a
+-- DOCTYPE holding `>` (dropped); the sanitized forest satisfies both extra hypotheses
+example : prologForest [.leaf (.doctype ['h', 't', 'm', 'l'] none (some ['x', '.', 'd', 't', 'd'])),
+    .elem divTag [] [.leaf (.pi ['p', 'h', 'p'] ['e', 'c', 'h', 'o']), .leaf .startCdata, .leaf (.text ['a', '<'] false),
+      .leaf .endCdata, .leaf (.pi ['x'] ['a', '>', '<', 's'])],
+    .leaf (.doctype ['h', 't', 'm', 'l'] none (some ['x', '\'', '>', '<', 's', '>']))] = true := by decide
+example : forestAttrVals [.leaf (.xmlDecl ['1', '.', '0'] none (-1)), .leaf (.doctype ['h', 't', 'm', 'l'] none (some ['x', '.', 'd', 't', 'd'])),
+      .elem divTag [] [.leaf (.pi ['p', 'h', 'p'] ['e', 'c', 'h', 'o']), .leaf (.text ['a', '<'] false)]] = true ∧
+    forestDtQuoted [.leaf (.xmlDecl ['1', '.', '0'] none (-1)), .leaf (.doctype ['h', 't', 'm', 'l'] none (some ['x', '.', 'd', 't', 'd'])),
+      .elem divTag [] [.leaf (.pi ['p', 'h', 'p'] ['e', 'c', 'h', 'o']), .leaf (.text ['a', '<'] false)]] = true := by decide
+example : (do
+    let o ← (sanitize Cfg.default [.xmlDecl ['1', '.', '0'] none (-1),
+      .doctype ['h', 't', 'm', 'l'] none (some ['x', '.', 'd', 't', 'd']), .start divTag [],
+      .pi ['p', 'h', 'p'] ['e', 'c', 'h', 'o'], .startCdata, .text ['a', '<'] false, .endCdata, .pi ['x'] ['a', '>', '<', 's'],
+      .end_ divTag, .doctype ['h', 't', 'm', 'l'] none (some ['x', '\'', '>', '<', 's', '>'])]).toOption
+    let txt ← Genshi.Output.render .xhtml { strip := false, cache := true, doctype := none, dropXmlDecl := false } o
+    Genshi.Reader.tokens true txt) =
+    some [.pi ['x', 'm', 'l', ' ', 'v', 'e', 'r', 's', 'i', 'o', 'n', '=', '"', '1', '.', '0', '"'], .text ['\n'],
+      .doctype ['h', 't', 'm', 'l', ' ', 'S', 'Y', 'S', 'T', 'E', 'M', ' ', '"', 'x', '.', 'd', 't', 'd', '"'], .text ['\n'],
+      .start ['d', 'i', 'v'] [] false, .pi ['p', 'h', 'p', ' ', 'e', 'c', 'h', 'o'], .text ['a', '<'], .end_ ['d', 'i', 'v']] := by
+  decide +kernel
+
+/-- The hypothesis `forestDtQuoted` is needed for an XML tokenizer (not for an HTML one, see
+    `html_reparse_prolog_safe_partial`): the sanitizer keeps `<!DOCTYPE a"b>` (no `>` inside), and the
+    quote-aware XML reader swallows the following start tag into the declaration (up to the next
+    quote, here the one in the text) — expat itself rejects such a document. -/
+theorem xhtml_doctype_quote_witness :
+    sanitize Cfg.default [.doctype ['a', '"', 'b'] none none, .start divTag [], .text ['"', 'x'] false, .end_ divTag] =
+      .ok [.doctype ['a', '"', 'b'] none none, .start divTag [], .text ['"', 'x'] false, .end_ divTag] ∧
+    (Genshi.Output.render .xhtml { strip := false, cache := true, doctype := none, dropXmlDecl := true }
+        [.doctype ['a', '"', 'b'] none none, .start divTag [], .text ['"', 'x'] false, .end_ divTag]).bind
+      (Genshi.Reader.tokens true) ≠
+      some [.doctype ['a', '"', 'b'], .text ['\n'], .start ['d', 'i', 'v'] [] false, .text ['"', 'x'], .end_ ['d', 'i', 'v']] := by
+  decide +kernel
+
+/-! ## The repeat-until-stable loops at any depth (wave 4)
+
+  The code repeats reference decoding of an attribute value and comment removal of a style text
+  `while` the text changes; the model carries fuel (`length + 1`).  The fuel is never what ends a
+  loop: a pass that changes the text shortens it, so every larger fuel gives the same result —
+  the model describes the unbounded `while` loops of the code at every depth, also for a value
+  wrapped in thousands of `&amp;` layers (stream `deep` of the harness: model and code compared
+  at depths beyond the interpreter's recursion limit), and the result is stable under one more
+  pass. -/
+
+theorem decode_loop_fuel_independent (s : Str) (g : Nat) (hg : s.length < g) : stripRefsFix g s = stripRefs s :=
+  stripRefs_fuel s g hg
+
+theorem comment_loop_fuel_independent (s : Str) (g : Nat) (hg : s.length < g) :
+    stripCommentsFix Genshi.Gen.SanClass.commentsDotall g s = stripCssComments s := by
+  unfold stripCssComments
+  rw [css_comments_dotall]
+  exact stripCommentsFix_fuel g (s.length + 1) s hg (Nat.lt_succ_self _)
+
+theorem loops_end_stable (s : Str) :
+    (∀ v, stripRefs s = .ok v → stripentities v = .ok v ∧ v.length ≤ s.length) ∧
+    stripCommentsOnce Genshi.Gen.SanClass.commentsDotall (stripCssComments s) = stripCssComments s := by
+  refine ⟨fun v h => ⟨stripRefs_fixed h, stripRefsFix_passes _ s (Nat.lt_succ_self _) v h⟩, ?_⟩
+  unfold stripCssComments
+  rw [css_comments_dotall]
+  exact stripCommentsFix_fixed _ s (Nat.lt_succ_self _)
+
+-- non-vacuity: three layers of `&amp;` need four passes; a staggered comment needs two
+example : stripRefs ['&', 'a', 'm', 'p', ';', 'a', 'm', 'p', ';', 'a', 'm', 'p', ';', '#', '1', '0', '6', ';'] = .ok ['j'] := by
+  decide +kernel
+example : stripentities ['&', 'a', 'm', 'p', ';', 'a', 'm', 'p', ';', 'a', 'm', 'p', ';', '#', '1', '0', '6', ';'] =
+    .ok ['&', 'a', 'm', 'p', ';', 'a', 'm', 'p', ';', '#', '1', '0', '6', ';'] := by decide +kernel
+example : stripCssComments ['e', '/', '/', '*', '*', '/', '*', '*', '/', 'x'] = ['e', 'x'] ∧
+    stripCommentsOnce true ['e', '/', '/', '*', '*', '/', '*', '*', '/', 'x'] = ['e', '/', '*', '*', '/', 'x'] := by decide +kernel
+
+/-! ## The helpers of `sanitize_css`, one by one (wave 4 audit)
+
+  `_replace_unicode_escapes`, `_strip_css_comments`, `is_safe_css`, `is_safe_uri` and the
+  attribute loop are each a model function of their own (`replaceUnicodeEscapes`,
+  `stripCssComments`, `isSafeCss`, `isSafeUri`, `sanAttr`/`sanAttrs`), compared with the code one
+  by one (streams `_replace_unicode_escapes`, `_strip_css_comments`, `is_safe_css`, `is_safe_uri`,
+  `decode-loop`) besides the composite streams.  genshi has no special treatment of vendor
+  prefixes, `behavior` or `-moz-binding`: such properties are dropped because they are not in
+  `safe_css` — for every configuration (`unsafe_css_property_dropped`), and the default set holds
+  none of them (`default_css_no_scripting_properties`, over the generated table). -/
+
+/-- none of the helpers raises: escape decoding (hex escapes beyond U+10FFFF, surrogates, `\5c`,
+    a trailing white-space character, backslash-newline, a backslash at the end), the attribute
+    loop on one attribute, the decoding loop -/
+theorem css_helpers_total (cfg : Cfg) (s : Str) (a : QName × Str) :
+    (∃ r, replaceUnicodeEscapes s = .ok r) ∧ (∃ r, sanAttr cfg a = .ok r) ∧ (∃ r, stripRefs s = .ok r) :=
+  ⟨replaceUnicodeEscapes_ok s, sanAttr_ok cfg a, stripRefs_ok s⟩
+
+/-- `_strip_css_comments` leaves no complete comment `/*…*/` behind, however the comments are
+    nested or staggered (the loop runs until the text is stable) -/
+theorem strip_css_comments_complete (s : Str) : NoComment (stripCssComments s) :=
+  stripCssComments_noComment css_comments_dotall s
+
+/-- A declaration whose property (stripped, lower-cased) is not in `safe_css` is never emitted —
+    for every configuration: vendor-prefixed properties, `behavior`, `-moz-binding`, … need no
+    rule of their own. -/
+theorem unsafe_css_property_dropped {cfg : Cfg} {piece d : Str} (h : cssDecl cfg piece = some d) :
+    ∃ pn v, split1 ':' (pyStrip piece) = (pn, some v) ∧ pyLower (pyStrip pn) ∈ cfg.safeCss := by
+  unfold cssDecl at h
+  simp only at h
+  split at h
+  · cases h
+  · split at h
+    · cases h
+    · rename_i pn v hsp
+      refine ⟨pn, v, hsp, ?_⟩
+      split at h
+      · cases h
+      · rename_i hsafe
+        cases hc : isSafeCss cfg (pyLower (pyStrip pn)) (pyStrip v) with
+        | false => simp [hc] at hsafe
+        | true =>
+          unfold isSafeCss at hc
+          simp only [Bool.and_eq_true] at hc
+          simpa using hc.1
+
+def startsWithDash : Str → Bool
+  | '-' :: _ => true
+  | _ => false
+
+/-- The default `SAFE_CSS` (generated from the class attribute) holds no property that runs code or
+    binds behaviour, no vendor-prefixed property, and not `position`. -/
+theorem default_css_no_scripting_properties :
+    (∀ p ∈ [['b', 'e', 'h', 'a', 'v', 'i', 'o', 'r'], ['-', 'm', 'o', 'z', '-', 'b', 'i', 'n', 'd', 'i', 'n', 'g'],
+            ['-', 'm', 's', '-', 'b', 'e', 'h', 'a', 'v', 'i', 'o', 'r'], ['-', 'o', '-', 'l', 'i', 'n', 'k'],
+            ['f', 'i', 'l', 't', 'e', 'r'], ['p', 'o', 's', 'i', 't', 'i', 'o', 'n'], ['e', 'x', 'p', 'r', 'e', 's', 's', 'i', 'o', 'n']],
+        p ∉ Cfg.default.safeCss) ∧
+    (∀ p ∈ Cfg.default.safeCss, startsWithDash p = false) := by
+  decide +kernel
+
+-- non-vacuity: vendor-prefixed / behaviour properties are dropped, escapes with a trailing
+-- white-space character and backslash-newline are decoded as the code does
+example : sanitizeCss Cfg.default ['-', 'm', 'o', 'z', '-', 'b', 'i', 'n', 'd', 'i', 'n', 'g', ':', 'u', 'r', 'l', '(', 'x', ')', ';',
+    'b', 'e', 'h', 'a', 'v', 'i', 'o', 'r', ':', 'u', 'r', 'l', '(', 'x', ')', ';', 'c', 'o', 'l', 'o', 'r', ':', 'r', 'e', 'd'] =
+    .ok [['c', 'o', 'l', 'o', 'r', ':', 'r', 'e', 'd']] := by decide +kernel
+example : replaceUnicodeEscapes ['\\', '6', '5', ' ', 'x', '\\', '6', '5', '\r', '\n', 'y', '\\', '\n', 'z', '\\'] =
+    .ok ['e', 'x', 'e', 'y', '\\', '\n', 'z', '\\'] := by decide +kernel
 
 /-! ## The order of the two CSS passes
 
